@@ -457,6 +457,8 @@ def random_spec(rng: random.Random, features: set[str]) -> dict:
             st["ctx"] = ctx
         if "skip" in features and i > 0 and rng.random() < 0.1:
             st["enabled"] = False
+        if (i * 7 + len(reqs) + ntasks) % 5 == 0:
+            st["alias"] = True      # tasks referenced through a registry alias (no draw from rng: the stream of specs is unchanged)
         stages.append(st)
     return {"stages": stages}
 
